@@ -382,9 +382,15 @@ private:
                 more_ = !cursor_mode_;
                 break;
             }
-            case jsoncons::bson::bson_type::symbol_type:
             case jsoncons::bson::bson_type::min_key_type:
             case jsoncons::bson::bson_type::max_key_type:
+            {
+                // Min key and max key have no payload, they are reported as an empty string
+                visitor.string_value(jsoncons::string_view(), semantic_tag::none, *this, ec);
+                more_ = !cursor_mode_;
+                break;
+            }
+            case jsoncons::bson::bson_type::symbol_type:
             case jsoncons::bson::bson_type::string_type:
             {
                 auto sv = read_string(ec);
